@@ -70,6 +70,11 @@ pub enum Deco {
     Mid(ANode),
     Post(ANode),
     BareDoctype(bool),
+    /// several declarations plus a use in the root element
+    DeclsAndChild(Vec<ADecl>, ANode),
+    DeclsAndAttr(Vec<ADecl>, &'static str, Vec<Part>),
+    /// several attributes on one element
+    Attrs(usize, Vec<(&'static str, Vec<Part>)>),
     /// external identifier of the DOCTYPE: (public, system)
     ExternalId(Option<&'static str>, &'static str),
 }
@@ -209,6 +214,9 @@ pub fn doc_menu(root_name: &str) -> Vec<LDeco> {
     );
     push("pre-comment", Deco::Pre(ANode::Comment("k".into())));
     push("pre-pi", Deco::Pre(ANode::PI("t".into(), Some("d".into()))));
+    // targets that begin like the XML declaration
+    push("pre-pi-xml-stylesheet", Deco::Pre(ANode::PI("xml-stylesheet".into(), Some("href='a.xsl'".into()))));
+    push("pre-pi-xmlns", Deco::Pre(ANode::PI("xmlns".into(), None)));
     push("mid-comment", Deco::Mid(ANode::Comment("m".into())));
     push("mid-pi", Deco::Mid(ANode::PI("u".into(), None)));
     push("post-comment", Deco::Post(ANode::Comment("z".into())));
@@ -319,11 +327,39 @@ pub fn doc_menu(root_name: &str) -> Vec<LDeco> {
     ] {
         push(&format!("decl-element-{}", label), Deco::Decl(ADecl::Element { name: root_name.to_string(), spec: spec.to_string() }));
     }
+    // an entity name declared twice: the first declaration binds (internal then unparsed, and the reverse)
+    push(
+        "decl-entity-internal-then-unparsed",
+        Deco::Decls(vec![
+            ent("ed", t("t")),
+            ADecl::ExtEntity { name: "ed".into(), public: None, system: "s".into(), ndata: Some("nn".into()) },
+            ADecl::Notation { name: "nn".into(), public: None, system: Some("x".into()) },
+        ]),
+    );
+    push(
+        "decl-entity-unparsed-then-internal",
+        Deco::Decls(vec![
+            ADecl::ExtEntity { name: "ed".into(), public: None, system: "s".into(), ndata: Some("nn".into()) },
+            ent("ed", t("t")),
+            ADecl::Notation { name: "nn".into(), public: None, system: Some("x".into()) },
+        ]),
+    );
     push("decl-comment", Deco::Decl(ADecl::Comment("dtd comment".into())));
     push("decl-pi", Deco::Decl(ADecl::PI("dp".into(), Some("x".into()))));
     // declaration + use
     push("use-entity", Deco::DeclAndChild(ent("e", t("v")), ANode::EntRef("e".into())));
     push("use-entity-empty", Deco::DeclAndChild(ent("e0", vec![]), ANode::EntRef("e0".into())));
+    // an entity that reaches another one twice (not a recursion), directly and through a third
+    let twice = vec![ent("ea", t("v")), ent("eb", vec![Part::EntRef("ea".into()), Part::Text("-".into()), Part::EntRef("ea".into())]), ent("ec", vec![Part::EntRef("ea".into()), Part::Text("|".into()), Part::EntRef("eb".into())])];
+    push("use-entity-reached-twice", Deco::DeclsAndChild(twice.clone(), ANode::EntRef("ec".into())));
+    push("use-entity-reached-twice-in-attr", Deco::DeclsAndAttr(twice, "x", vec![Part::Text("<".replace('<', "(")), Part::EntRef("ec".into()), Part::Text(")".into())]));
+    // two attributes that differ in their prefix only; a prefix named like the local part of another attribute
+    push("attrs-same-local-two-prefixes", Deco::Attrs(0, vec![("xmlns:pa", t("urn:a")), ("xmlns:pb", t("urn:b")), ("pa:x", t("1")), ("pb:x", t("2"))]));
+    push("attrs-prefix-named-like-local", Deco::Attrs(0, vec![("xmlns:pa", t("urn:a")), ("xmlns:x", t("urn:x")), ("pa:x", t("1"))]));
+    // characters whose low byte is the byte of a delimiter (U+0422 -> 0x22, U+0427 -> 0x27, U+043C -> 0x3C, U+0426 -> 0x26, U+043E -> 0x3E, U+045D -> 0x5D)
+    push("attr-x-lowbyte-delimiters", Deco::Attr(0, "x", t("\u{422}\u{427}\u{43c}\u{426}\u{43e}\u{45d}")));
+    push("text-lowbyte-delimiters", Deco::Child(0, false, ANode::Text("\u{422}\u{427}\u{43c}\u{426}\u{43e}\u{45d}\u{45d}\u{43e}".into())));
+    push("decl-entity-lowbyte-delimiters", Deco::DeclAndChild(ent("el", t("\u{422}\u{427}\u{426}")), ANode::EntRef("el".into())));
     push("use-entity-ws", Deco::DeclAndChild(ent("ew", t("a\n b\t")), ANode::EntRef("ew".into())));
     push(
         "use-entity-charref",
@@ -418,6 +454,19 @@ pub fn apply(skel: &AElem, decos: &[&LDeco]) -> ADoc {
                 decls.push(dc.clone());
                 d.root.attrs.push(atp(name, val.clone()));
             }
+            Deco::DeclsAndChild(dcs, node) => {
+                decls.extend(dcs.iter().cloned());
+                d.root.children.push(node.clone());
+            }
+            Deco::DeclsAndAttr(dcs, name, val) => {
+                decls.extend(dcs.iter().cloned());
+                d.root.attrs.push(atp(name, val.clone()));
+            }
+            Deco::Attrs(i, list) => with_elem(&mut d.root, *i, |e| {
+                for (name, val) in list {
+                    e.attrs.push(atp(name, val.clone()));
+                }
+            }),
             Deco::XmlDecl(x) => d.xmldecl = Some(x.clone()),
             Deco::Pre(n) => d.pre.push(n.clone()),
             Deco::Mid(n) => d.mid.push(n.clone()),
